@@ -77,9 +77,16 @@ def build(variant="std64", bin_name="drive"):
         tdir = os.path.join("/tmp", "verif-target-" + hashlib.md5(alt.encode()).hexdigest()[:8], tdir)
         cargo_args = cargo_args + ["--config", "paths=[%s]" % ",".join(
             '"%s/%s"' % (alt, d) for d in ("base", "integer", "float", "rational", "macros"))]
+    cargo = ["cargo"]
+    if os.environ.get("VERIF_COV") and variant == "std64":
+        # development aid: source-coverage build (nightly's llvm-tools read the profiles); set LLVM_PROFILE_FILE for the drivers.
+        # Shows which library code no driver run reaches - the implementation-side counterpart of an action never taken.
+        rustflags += ["-C", "instrument-coverage"]
+        tdir = os.path.join(os.environ["VERIF_COV"], tdir)
+        cargo = ["cargo", "+nightly"]
     env = {"CARGO_ENCODED_RUSTFLAGS": "\x1f".join(rustflags), "CARGO_TARGET_DIR": os.path.join(HARNESS, tdir)}
     t = time.time()
-    rc, out = sh(["cargo", "build", "--offline", "--bin", bin_name] + cargo_args, cwd=HARNESS, env=env, timeout=1800)
+    rc, out = sh(cargo + ["build", "--offline", "--bin", bin_name] + cargo_args, cwd=HARNESS, env=env, timeout=1800)
     if rc != 0:
         sys.stderr.write(out[-6000:])
         raise ToolError("harness build failed (%s)" % variant)
